@@ -238,6 +238,8 @@ CASES = [
     ("from a\nselect {id, x, g}\nsort {-x}\njoin (from b | sort v) (==id)\ntake 2\ngroup a.g (aggregate {n = count this, t = sum a.x})\nsort g\n", [('q', 1, 40), ('r', 1, 50)], True),
     ("from a\nsort {-x}\ntake 3\nselect {id}\n", [(r[0],) for r in _BYX[:3]], True),
     ("from a\nsort x\nderive {r = row_number this}\nfilter r <= 2\nselect {id}\nsort id\n", [(1,), (6,)], True),
+    # the order of an APPENDED sub-pipeline does not replace the order in effect either (its columns are not even visible in the top pipeline)
+    ("from a\nselect {id, x}\nsort {-x}\nappend (from b | select {id, v = v * 2} | sort v)\nderive {rn = row_number this}\nfilter rn <= 2\nselect {id, x}\nsort {-x}\n", None, True),
 ]
 
 
@@ -250,6 +252,8 @@ def _try(src, exp, ordered):
     if not ok2:
         return {"input": src, "expected": exp, "observed": "sqlite error: %s" % rows, "failing": True, "replay_kind": "rows", "sql": sql}
     rows = [tuple(r) for r in rows]
+    if exp is None:   # only: the program compiles to SQL that binds and runs
+        return {"input": src, "expected": "SQL that SQLite accepts", "observed": [list(r) for r in rows], "failing": False, "replay_kind": "rows", "sql": sql}
     return {"input": src, "expected": [list(r) for r in exp], "observed": [list(r) for r in rows], "failing": rows != exp, "replay_kind": "rows", "sql": sql}
 
 
@@ -262,7 +266,8 @@ def replay(failure):
 
 
 def rerun(doc):
-    return _try(doc["input"], [tuple(r) for r in doc["expected"]], True)
+    exp = doc["expected"]
+    return _try(doc["input"], [tuple(r) for r in exp] if isinstance(exp, list) else None, True)
 
 
 SWEEP_DOC = ("programs where a sort is followed by a join and then by a take, a window function or a grouped aggregate of the taken rows (and two programs without a join): "
